@@ -97,7 +97,7 @@ theorem residuals_pinned : Gen.AsyncPairs.residuals = [
     ("liquid/ast.py:BlockNode.render_to_output", "574041b432ff56fa"),
     ("liquid/builtin/expressions/filtered.py:Filter.evaluate", "5cf9f76b1f802c22"),
     ("liquid/builtin/expressions/loop.py:LoopExpression.evaluate", "8b3fde71b2427f4e"),
-    ("liquid/builtin/loaders/file_system_loader.py:FileSystemLoader._uptodate", "ebc7130fabf60cf2"),
+    ("liquid/builtin/loaders/file_system_loader.py:FileSystemLoader._uptodate", "2796d84535ef6c49"),
     ("liquid/builtin/loaders/file_system_loader.py:FileSystemLoader.get_source", "aa3f07ea79aca077"),
     ("liquid/builtin/loaders/package_loader.py:PackageLoader.get_source", "b3954b7a14a10974"),
     ("liquid/builtin/tags/if_tag.py:IfNode.render_to_output", "e605b0a8933e92f9"),
@@ -110,7 +110,7 @@ theorem residuals_pinned : Gen.AsyncPairs.residuals = [
     ("liquid/extra/tags/extends_tag.py:ExtendsNode.children", "ce56e03fa8e832bb"),
     ("liquid/extra/tags/macro_tag.py:CallNode.render_to_output", "1bd8a2c9b65f8f97"),
     ("liquid/loader.py:BaseLoader.get_source", "30176babf38af53e"),
-    ("liquid/template.py:BoundTemplate.is_up_to_date", "fa806394d9f2f00e")] := by decide
+    ("liquid/template.py:BoundTemplate.is_up_to_date", "a179aa8502155b5e")] := by decide
 
 /-- base-class defaults whose async half is `return self.f(…)` (shape kernel-checked in `Gen`) -/
 theorem delegations_pinned : Gen.AsyncPairs.delegations = [
